@@ -602,7 +602,21 @@ fn sw_encode<P: sw::SWCurveConfig>(x: &P::BaseField, y: &P::BaseField, flags: u8
 }
 
 fn sw_foreign<P: sw::SWCurveConfig>(g: &mut G<'_>, c: Compress) -> Option<(Vec<u8>, &'static str)> {
-    match g.rng.below(9) {
+    match g.rng.below(10) {
+        9 => {
+            // the image of a valid point under (x, y) -> (l^2 x, l^3 y): a point of the isomorphic
+            // curve y^2 = x^3 + a l^4 x + b l^6 with the same group structure - off this curve,
+            // but indistinguishable from a subgroup point to any test that assumes the equation
+            let p = (P::GENERATOR * gen_scalar::<P::ScalarField>(g)).into_affine();
+            let l = loop {
+                let l = P::BaseField::from(g.rng.range(2, 1000) as u64);
+                if l.square() * l.square() * l.square() != P::BaseField::ONE || !P::COEFF_A.is_zero() {
+                    break l;
+                }
+            };
+            let (x, y) = (p.x * l.square(), p.y * l.square() * l);
+            Some((sw_encode::<P>(&x, &y, sw_flags_of(&y), Compress::No), "valid point moved to an isomorphic curve (uncompressed layout)"))
+        },
         8 => {
             let x = sw_x_with_rhs_in_subfield::<P>(g)?;
             let f = if g.rng.chance(1, 2) { 0x80 } else { 0 };
@@ -1098,7 +1112,18 @@ fn zcash_encode<P: sw::SWCurveConfig>(x: &P::BaseField, y: &P::BaseField, flags:
 pub fn zcash_foreign<P: sw::SWCurveConfig>(g: &mut G<'_>, c: Compress) -> Option<(Vec<u8>, &'static str)> {
     let cbit = if matches!(c, Compress::Yes) { 0x80u8 } else { 0 };
     let sortbit = |y: &P::BaseField| if matches!(c, Compress::Yes) && lex_gt(y, &-*y) { 0x20u8 } else { 0 };
-    match g.rng.below(10) {
+    match g.rng.below(12) {
+        10 | 11 => {
+            let p = (P::GENERATOR * gen_scalar::<P::ScalarField>(g)).into_affine();
+            let l = loop {
+                let l = P::BaseField::from(g.rng.range(2, 1000) as u64);
+                if l.square() * l.square() * l.square() != P::BaseField::ONE || !P::COEFF_A.is_zero() {
+                    break l;
+                }
+            };
+            let (x, y) = (p.x * l.square(), p.y * l.square() * l);
+            Some((zcash_encode::<P>(&x, &y, 0, Compress::No), "valid point moved to an isomorphic curve (uncompressed layout)"))
+        },
         9 => {
             let x = sw_x_with_rhs_in_subfield::<P>(g)?;
             let f = if g.rng.chance(1, 2) { 0xa0 } else { 0x80 };
